@@ -1,9 +1,12 @@
 """C18 Byzantine-tolerant median: Go common.Median vs the model on generated lists, plus the range oracle."""
 import vlib
+from props import simcommon, C09
 
-HARNESS = ["median"]
+HARNESS = ["median", "sim"]
 ASSUMPTIONS = ["honest timestamps within [-2^62, 2^62-1] (sum of two does not wrap int64); Byzantine values arbitrary",
-               "the famous witnesses of a decided round have pairwise distinct creators (one witness per creator per round)"]
+               "the famous witnesses of a decided round have pairwise distinct creators (one witness per creator per round)",
+               "end to end: in the gossip histories (flavours static and advsigs) the timestamp of every delivered block is recomputed from the claimed times of the "
+               "famous witnesses of its round-received; in the advsigs flavour the harness-driven validator X claims extreme times (int64 extremes, 0, +-1, 2^63*2/3)"]
 
 def run(ctx):
     n = 40000 if ctx["tier"] == "thorough" else 4000
@@ -38,4 +41,19 @@ def run(ctx):
                     "int64 extremes, +-2^64/3, random; each list passed in 3 random orders; non-trivial = contains Byzantine values; "
                     "distinct = distinct (sorted honest, sorted Byzantine) pair",
                samples=samples, histogram=hist, traces_validated_against_impl=ncases)
+    # end to end: block timestamp = median of the famous witnesses' claimed times, within the honest range (cmd/sim oracle)
+    e2e = dict(blocks_checked=0, blocks_with_byzantine_famous_witness=0, histories=0)
+    for fl in ("static", "advsigs"):
+        if fl == "advsigs":
+            simcommon.FLAVOURS["advsigs"] = C09._tier_flags(ctx["tier"])
+        res = simcommon.run(ctx, fl)
+        f, d = simcommon.findings_for(res, "C18", ["d"])
+        findings += f
+        diffs += d
+        for st in res["stats"]:
+            e2e["blocks_checked"] += st.get("tschecked", 0)
+            e2e["blocks_with_byzantine_famous_witness"] += st.get("a:c18-blocks-with-byzantine-famous-witness", 0)
+            e2e["histories"] += 1
+    cov["end_to_end"] = e2e
+    cov["evaluations"] += e2e["blocks_checked"]
     return dict(findings=findings[:10], coverage=cov, corr_diffs=diffs[:10])
